@@ -29,7 +29,13 @@ ASSUMPTIONS = [
     "for the discovery reply the msgID must match",
     "any SnmpError subclass counts as refusal of a foreign community / version",
 ]
-REQUIRED_CLASSES = {"perturbed": 0.35, "clock_steps": 0.40, "v3": 0.15, "walk_op": 0.25, "history": 0.05}
+_REQUIRED_BASE = {"perturbed": 0.35, "clock_steps": 0.40, "v3": 0.15, "walk_op": 0.25, "history": 0.05}
+# generator health of the newer case families (quick tier: the thorough tier dilutes them with enumerated units)
+_REQUIRED_QUICK = {'agent_reboots': 0.01}
+
+
+def REQUIRED_CLASSES(tier):
+    return dict(_REQUIRED_BASE, **(_REQUIRED_QUICK if tier == "quick" else {}))
 
 TBL = (1, 3, 6, 1, 4, 1, 55, 2)
 DB = {(1, 3, 6, 1, 4, 1, 55, 1, 0): (vber.T_OCTETS, b"scalar")}
@@ -359,7 +365,7 @@ def cases(draw):
                 inc=draw(INCS), bulk=draw(st.sampled_from([1, 2, 3, 10])))
     if kind == "none" and draw(st.integers(0, 3)) == 0:
         case["twice"] = True
-    elif kind == "none" and proto["v"] == "3" and proto.get("algo") and draw(st.integers(0, 2)) == 0:
+    elif kind == "none" and proto["v"] == "3" and proto.get("algo") and draw(st.integers(0, 1)) == 0:
         case["reboot_at"] = draw(st.integers(0, 2))
     if op in ("walk", "multiwalk") and draw(st.booleans()):
         # lenient walks tolerate a faulty AGENT; a response that is not the answer to the request is something else
